@@ -19,6 +19,8 @@ pub fn step(st: *mut State, id: u64, tag: u32, rot: u32, a: u64) -> u64 {
 #[cglue_trait] pub trait Oa { fn oa(&self, a: u64) -> u64; }
 #[cglue_trait] pub trait Ob { fn ob(&self, a: u64) -> u64; }
 #[cglue_trait] pub trait Oc { fn oc(&self, a: u64) -> u64; }
+/// a name whose case-sensitive order ("OZ" < "Oa") differs from its lowercase order ("oz" > "oa")
+#[cglue_trait] pub trait OZ { fn oz(&self, a: u64) -> u64; }
 #[cglue_trait] pub trait TT<T> { fn tt(&self, a: T) -> T; }
 
 #[macro_export]
@@ -31,6 +33,7 @@ macro_rules! imp_struct { ($n:ident) => {
     impl Oa for $n { fn oa(&self, a: u64) -> u64 { step(self.st, self.id, 1, 5, a) } }
     impl Ob for $n { fn ob(&self, a: u64) -> u64 { step(self.st, self.id, 2, 7, a) } }
     impl Oc for $n { fn oc(&self, a: u64) -> u64 { step(self.st, self.id, 3, 11, a) } }
+    impl OZ for $n { fn oz(&self, a: u64) -> u64 { step(self.st, self.id, 6, 13, a) } }
     impl TT<u8> for $n { fn tt(&self, a: u8) -> u8 { step(self.st, self.id, 4, 13, a as u64) as u8 } }
     impl TT<u16> for $n { fn tt(&self, a: u16) -> u16 { step(self.st, self.id, 5, 17, a as u64) as u16 } }
 } }
